@@ -8,6 +8,12 @@
    "subject" field of a manifest ([subj], JSON decoding is external). *)
 From Oras Require Import Base.Prelude Base.Regex Generated.GC20 Model.Reference.
 
+(* Every digest algorithm go-digest knows is linked into the client (the harness imports
+   crypto/sha256 and crypto/sha512): C20's availability parameter is instantiated once. *)
+Definition all_algs (_ : str) : bool := true.
+Definition valid_digest : str -> bool := Reference.valid_digest all_algs.
+Definition repo_parse : (str -> bool) -> str -> str -> str -> option reference := Reference.repo_parse all_algs.
+
 (* ---------- descriptors, requests, responses ---------- *)
 
 Record desc := mkDesc { d_mt : str; d_dg : str; d_sz : N }.
